@@ -135,6 +135,7 @@ type Sample struct {
 	Reg      []int
 	ObsVals  [][2]int
 	Vals     [][2]int
+	Next     int // the creation counter after the operation
 	Edges    map[int][]int // registered node -> its linked inputs (sorted ids), sentinels left out
 }
 
@@ -178,6 +179,7 @@ type Exec struct {
 	Samples   []Sample
 	InPass    bool
 	Par       int // 0 = serial deterministic graph; otherwise the graph's parallelism
+	EraseEq   bool // the cutoff-free twin of C11: CutoffEqual becomes an identity map, VarEqual a plain Var
 	Sorted    bool // compare events with the model as multisets (parallel graphs; nodes wider than the edge index threshold)
 	// hooks for oracles
 	OnEvent  func(Event)
@@ -331,6 +333,9 @@ func (e *Exec) newMap2(scope incr.Scope, sid, gen int, f Fn2, a, b int) *NRef {
 }
 
 func (e *Exec) newCutoff(scope incr.Scope, sid, gen int, c string, a int) *NRef {
+	if e.EraseEq && c == "CEq" {
+		return e.newMap(scope, sid, gen, Fn1{1, 0}, a) // identity on the harness's value range
+	}
 	id := e.Next
 	inc := incr.CutoffContext(scope, e.Nodes[a].Inc, func(_ context.Context, old, new int) (bool, error) {
 		if err := e.invoke(id, "WCut"); err != nil {
@@ -472,7 +477,7 @@ func (e *Exec) Do(op Op) (out Sample) {
 		switch op.K {
 		case "NewVar":
 			var v incr.VarIncr[int]
-			if op.Eq {
+			if op.Eq && !e.EraseEq {
 				v = incr.VarEqual(e.G, op.V)
 			} else {
 				v = incr.Var(e.G, op.V)
@@ -604,6 +609,7 @@ func (e *Exec) Do(op Op) (out Sample) {
 	} else {
 		out.Class = "XPanic"
 	}
+	out.Next = e.Next
 	out.Events = e.events
 	out.Raw = e.events
 	if e.Par > 0 || e.Sorted {
